@@ -181,7 +181,14 @@ class SliceV(AV):
         self.lower, self.upper, self.step = lower, upper, step
 
     def is_full(self):
-        return self.lower is None and self.upper is None and self.step is None
+        def none(x):
+            if x is None:
+                return True
+            try:
+                return is_pyconst(x) and pyval(x) is None  # slice(None) spells the bounds as the constant None
+            except Exception:  # noqa
+                return False
+        return none(self.lower) and none(self.upper) and none(self.step)
 
 
 class Obj(AV):
